@@ -26,13 +26,25 @@ func (m *collection) NotifyMerger(kind string, synchronous bool) error {
 		pongCh = make(chan struct{})
 	}
 
-	m.pingMergerCh <- ping{
+	select {
+	case m.pingMergerCh <- ping{
 		kind:   kind,
 		pongCh: pongCh,
+	}:
+	case <-m.doneMergerCh:
+		// The merger is gone (the collection is closed): nobody
+		// will ever receive the ping.
+		return ErrClosed
 	}
 
 	if pongCh != nil {
-		<-pongCh
+		select {
+		case <-pongCh:
+		case <-m.doneMergerCh:
+			// The merger stopped before it received the ping, so
+			// no pong will come.
+			return ErrClosed
+		}
 	}
 
 	atomic.AddUint64(&m.stats.TotNotifyMergerEnd, 1)
